@@ -22,6 +22,7 @@ import (
 	"context"
 	"errors"
 	"fmt"
+	"net"
 	"os"
 	"sort"
 	"strings"
@@ -31,6 +32,7 @@ import (
 	"time"
 
 	"github.com/hashicorp/raft"
+	"github.com/rqlite/rqlite/v10/cluster"
 	"github.com/rqlite/rqlite/v10/command/proto"
 )
 
@@ -672,6 +674,137 @@ func c02FreshLeaderWindow(t *testing.T, rep *vfReport) {
 		fmt.Sprintf("write k0=2 acknowledged by the old leader, old leader stopped, two concurrent linearizable reads on the new leader %s while its term no-op could not be replicated", nl.Name))
 }
 
+type c02Dialer struct{}
+
+func (c02Dialer) Dial(addr string, timeout time.Duration) (net.Conn, error) {
+	return net.DialTimeout("tcp", addr, timeout)
+}
+
+// c02ForwardedPath sends reads to a FOLLOWER and forwards them to the leader through the real
+// inter-node path: cluster.Client (connection pool, per-request timeout) -> TCP ->
+// cluster.Service -> the leader's Store, the way proxy.Proxy does after ErrNotLeader.
+// One forwarded read is slow on the leader and runs into the client's timeout; later, after a
+// further acknowledged write, more reads are forwarded by the same client. Every forwarded
+// read must return ITS OWN reply: the history (acknowledged writes, forwarded reads) is
+// checked like any other.
+func c02ForwardedPath(t *testing.T, rep *vfReport) bool {
+	c := clu8NewCluster(t)
+	defer c.Close()
+	n0, err := c.NewNode()
+	if err != nil {
+		t.Fatalf("C02 harness: %v", err)
+	}
+	if err := c.Bootstrap(n0); err != nil {
+		t.Fatalf("C02 harness: %v", err)
+	}
+	f, err := c.NewNode()
+	if err != nil {
+		t.Fatalf("C02 harness: %v", err)
+	}
+	if err := n0.S.Join(joinRequest(f.Name, f.Addr, true)); err != nil {
+		t.Fatalf("C02 harness: join: %v", err)
+	}
+	if _, err := f.S.WaitForLeader(60 * time.Second); err != nil {
+		t.Fatalf("C02 harness: no leader on follower")
+	}
+	if err := clu8Exec(n0.S, "CREATE TABLE kv (k INTEGER PRIMARY KEY, v INTEGER)"); err != nil {
+		t.Fatalf("C02 harness: %v", err)
+	}
+	// the leader's inter-node service and the follower's client
+	ln, err := net.Listen("tcp", "127.0.0.1:0")
+	if err != nil {
+		t.Fatalf("C02 harness: %v", err)
+	}
+	svc := cluster.New(ln, n0.S, n0.S, nil)
+	if err := svc.Open(); err != nil {
+		t.Fatalf("C02 harness: cluster service: %v", err)
+	}
+	defer svc.Close()
+	client := cluster.NewClient(c02Dialer{}, 5*time.Second)
+	var clock atomic.Int64
+	var ops []c02Op
+	write := func(v int64) bool {
+		op := c02Op{kind: "w", key: 0, val: v, inv: clock.Add(1), node: n0.Name}
+		ok, _, err := c02Write(n0.S, 0, v)
+		if !ok {
+			rep.Note("forwarded path: write failed: %v", err)
+			return false
+		}
+		op.resp = clock.Add(1)
+		ops = append(ops, op)
+		return true
+	}
+	// forwarded read: the follower's Store refuses (ErrNotLeader), the request goes to the leader
+	// over the real client/service pair
+	fwdRead := func(sql string, lvl proto.ConsistencyLevel, timeout time.Duration, kind string) (int64, error) {
+		qr := queryRequestFromString(sql, false, false, false)
+		qr.Level = lvl
+		if _, _, _, err := f.S.Query(context.Background(), qr); !errors.Is(err, ErrNotLeader) {
+			return 0, fmt.Errorf("follower did not answer ErrNotLeader: %v", err)
+		}
+		op := c02Op{client: 1, kind: kind, key: 0, node: f.Name, via: n0.Name + " (cluster.Client)"}
+		op.inv = clock.Add(1)
+		rows, _, err := client.Query(context.Background(), qr, svc.Addr(), nil, timeout, 0)
+		if err != nil {
+			return 0, err
+		}
+		if len(rows) != 1 || rows[0].Error != "" {
+			return 0, fmt.Errorf("bad rows %v", rows)
+		}
+		op.val = -1
+		if len(rows[0].Values) > 0 {
+			op.val = rows[0].Values[0].Parameters[0].GetI()
+		}
+		op.resp = clock.Add(1)
+		ops = append(ops, op)
+		return op.val, nil
+	}
+	if !write(1) {
+		return false
+	}
+	if _, err := fwdRead("SELECT v FROM kv WHERE k=0", proto.ConsistencyLevel_STRONG, 10*time.Second, "strong"); err != nil {
+		rep.Note("forwarded path: first forwarded read failed: %v", err)
+		return false
+	}
+	// a read of the same key that is slow on the leader; the client gives up after 300 ms
+	slow := "SELECT v FROM kv WHERE k=0 AND (SELECT count(*) FROM (WITH RECURSIVE c(x) AS (SELECT 1 UNION ALL SELECT x+1 FROM c WHERE x < 6000000) SELECT x FROM c)) > 0"
+	t0 := time.Now()
+	_, serr := fwdRead(slow, proto.ConsistencyLevel_STRONG, 300*time.Millisecond, "strong")
+	timedOut := serr != nil && errors.Is(serr, os.ErrDeadlineExceeded)
+	rep.Count(fmt.Sprintf("forwarded-path:slow-read-timed-out=%v", timedOut))
+	// let the leader finish (and write its late reply onto the abandoned connection)
+	time.Sleep(time.Since(t0)*0 + 100*time.Millisecond)
+	if err := clu8Exec(n0.S, "SELECT 1"); err != nil {
+		_ = err
+	}
+	// a strong read straight on the leader queues behind the slow one in the FSM: when it returns,
+	// the slow one has been answered
+	if _, _, err := clu8Query(n0.S, "SELECT 1", proto.ConsistencyLevel_STRONG, 0); err != nil {
+		rep.Note("forwarded path: barrier read failed: %v (n0 leader=%v state=%v term=%d; follower leader=%v term=%d)", err, n0.S.IsLeader(), n0.S.raft.State(), n0.S.raft.CurrentTerm(), f.S.IsLeader(), f.S.raft.CurrentTerm())
+	}
+	time.Sleep(200 * time.Millisecond)
+	if !write(2) {
+		return false
+	}
+	for i := 0; i < 3; i++ {
+		lvl, kind := proto.ConsistencyLevel_LINEARIZABLE, "lin"
+		if i == 1 {
+			lvl, kind = proto.ConsistencyLevel_STRONG, "strong"
+		}
+		v, err := fwdRead("SELECT v FROM kv WHERE k=0", lvl, 10*time.Second, kind)
+		if err != nil {
+			rep.Count("forwarded-path:read-after-timeout-failed:" + c02ErrClass(err))
+			continue
+		}
+		rep.Count(fmt.Sprintf("forwarded-path:read-after-timeout-returned=%d", v))
+	}
+	rep.Case(fmt.Sprintf("forwarded-path|timed-out=%v|ops=%d", timedOut, len(ops)), timedOut)
+	rep.Sample(map[string]interface{}{"scenario": "forwarded-path", "slow_read_timed_out": timedOut, "history": c02Describe(ops)})
+	c02Verdict(t, rep, "forwarded-read-returns-another-requests-reply", ops, 1,
+		"reads forwarded from a follower through cluster.Client/cluster.Service; one forwarded read timed out at the client while the leader was still executing it; write k0=2 acknowledged; later forwarded reads by the same client")
+	return timedOut
+}
+
 // c02SelfTest makes sure the search and the verified checker reject what they must: a
 // history with a stale read has no order, and a wrong order is refused by Lean.
 func c02SelfTest(t *testing.T, rep *vfReport) {
@@ -709,6 +842,15 @@ func TestVerifC02(t *testing.T) {
 	rep := vfNewReport("C02", "live 3-node (thorough: also 5-node) clusters behind a fault-injecting transport layer; 4-6 concurrent clients issuing keyed writes (unique values), strong reads and linearizable reads to any node with one-hop forwarding to the named leader; seeded fault schedules (leader isolated, follower isolated, leader in a minority, stepdown, follower/leader stop+restart); one case per run = one recorded history; non-trivial when it contains acked writes, strong and linearizable reads and at least one fault; the linearization order found by search is re-checked by the Lean-verified checkWitness")
 	defer rep.Write()
 	c02SelfTest(t, rep)
+	for attempt := 0; attempt < 3; attempt++ {
+		done := false
+		if fin, dump := clu8Guard(10*time.Minute, func() { done = c02ForwardedPath(t, rep) }); !fin {
+			rep.Note("C02: forwarded-path scenario abandoned; goroutines: %s", dump)
+		}
+		if done {
+			break
+		}
+	}
 	for i := 0; i < vfScale(1, 4); i++ {
 		if fin, dump := clu8Guard(10*time.Minute, func() { c02FreshLeaderWindow(t, rep) }); !fin {
 			rep.Note("C02: fresh-leader window scenario abandoned; goroutines: %s", dump)
